@@ -66,6 +66,7 @@ def gen_case(rnd, boot_in_run=False, max_cmds=6):
             "reason": rnd.choice(["done", "lost", "boom"]),
             "wd_before": rnd.choice([0, 0, 1, 2, 3]), "wd_after": rnd.choice([0, 1, 1, 2, 3]),
             "wd_behaviours": [rnd.choice(["none", "none", "again", "submit"]) for _ in range(3)],
+            "local_close": rnd.choice([0, 0, 0, 1]),
             "chunking": gen.chunking(rnd)}
 
 
@@ -134,6 +135,16 @@ def run_case(case, rec):
             d.addBoth(resubmit)
         wds.append(s.aud.watch(d, "wd-before-%d" % i))
     reason = {"done": None, "lost": "lost", "boom": "boom"}[case["reason"]]
+    if case.get("local_close"):
+        # the application hangs up itself (transport.loseConnection(), e.g. after QUIT): the
+        # transport is 'disconnecting' when the connection then goes away
+        orig_lose = s.lose
+
+        def lose_after_local_close(r=None):
+            s.transport.loseConnection()
+            rec.count("local_close_before_loss")
+            return orig_lose(r)
+        s.lose = lose_after_local_close
     s.run(cut_at=case["cut"], reason=reason)
     if not s.lost:
         s.lose(reason)
